@@ -60,7 +60,8 @@ def vary(lf, v, rng, k, cfg=None):
             s = s.replace("@", " @")          # must not become e-mail shaped
         return ('str', s)
     if t == 'num':
-        return ('num', rng.choice(["0", "1", "-1", "3.14159", "1e10", "-2.5E-3", "123456789012345678901234567890", "0.0", "42"]))
+        return ('num', rng.choice(["0", "1", "-1", "3.14159", "1e10", "-2.5E-3", "123456789012345678901234567890", "0.0", "42",
+                                  "1e999", "-2.5E+400", "9" * 320, "1e-999"]))
     if t == 'bool':
         return ('bool', rng.random() < 0.5)
     return lf.node
@@ -85,6 +86,10 @@ def process_chunk_c02(args):
     res = {"evals": 0, "nontrivial": set(), "violations": [], "drift": 0, "drift_samples": [], "samples": [], "crashes": 0,
            "crash_samples": [], "stray": 0, "stray_samples": [], "extra": {}}
     try:
+        # the runs happen in a directory that an earlier `redact --encrypt` run has used: a valid key file is at the default
+        # key path ./anonymongo.enc.key (none of these runs asks for encryption)
+        with open(os.path.join(workdir, "anonymongo.enc.key"), "w") as kf:
+            kf.write(base64.b64encode(bytes((7 * j + 3) % 256 for j in range(64))).decode())
         base = []
         for i, rec in enumerate(recs):
             c = l3.Concretiser(seed, chunk_no * 100000 + i, 0)
@@ -114,7 +119,7 @@ def process_chunk_c02(args):
                         nsens.append(cnt)
                     lines.append(jsonx.dumps(t2))
                 crashed = {}
-                got, stray = l3.run_with_bisect(b, lines, list(range(len(lines))), cfg, workdir, os.path.join(workdir, "k.key"), crashed)
+                got, stray = l3.run_with_bisect(b, lines, list(range(len(lines))), cfg, workdir, os.path.join(workdir, "k.key"), crashed, cwd=workdir)
                 outs.append(got)
                 inputs.append(lines)
                 res["crashes"] += len(crashed)
@@ -183,7 +188,8 @@ def run(tier):
                   "rule": "each abstract case with at least one sensitive literal is concretised k times: variant 0 distinct ASCII contents, variant 1 "
                           "all sensitive strings equal (secrets equal across classes), variant 3 secrets equal to a field / collection / database name of the line, "
                           "variant 4 secrets spelled like a pseudonym, a placeholder of another class or the replacement text, the others random contents of length 0..20 kB with JSON "
-                          "metacharacters / numbers of other magnitude and notation / both booleans, classes preserved; everything else byte-identical; "
+                          "metacharacters / numbers of other magnitude and notation (including literals outside the float64 range) / both booleans, classes preserved; everything else byte-identical; "
+                          "every run happens in a directory whose default key path holds a valid key file left by an earlier --encrypt run; "
                           "the k outputs are compared as bytes; distinct by (predicted outcome pattern, flag set)",
                   "trusted_base": ["TLC", "lib/l3.py concretiser", "spec prediction is used only to choose WHICH literals are varied"]})
     v.assumptions.append("a sensitive literal = labelled client literal (grammar) that the specification replaces under the flag set")
